@@ -36,6 +36,9 @@ type c06Case struct {
 	// SlowNotify: a notification whose handler keeps running until the end of the case is sent on the same connection
 	// before the cancellations
 	SlowNotify bool `json:"slow_notify,omitempty"`
+	// SharedCtx: the subscriptions that get cancelled once established were all opened under one cancellable context
+	// (each through its own value-carrying child of it), which is cancelled once
+	SharedCtx bool `json:"shared_ctx,omitempty"`
 }
 
 func runC06(c c06Case) (*Violation, string) {
@@ -78,9 +81,18 @@ func runC06(c c06Case) (*Violation, string) {
 		p      *Pending
 	}
 	var calls []*st
+	var sharedCtx context.Context
+	var sharedCancel context.CancelFunc
 	for i, cc := range c.Calls {
 		s := &st{c06Call: cc, tok: rig.Tok(fmt.Sprintf("%s%d", cc.Kind, i))}
 		s.ctx, s.cancel = context.WithCancel(context.Background())
+		if c.SharedCtx && cc.Kind == "sub" && cc.Cancel == "established" {
+			if sharedCtx == nil {
+				sharedCtx, sharedCancel = context.WithCancel(context.Background())
+			}
+			type subKey struct{}
+			s.ctx, s.cancel = context.WithValue(sharedCtx, subKey{}, i), sharedCancel
+		}
 		if cc.Cancel == "before" {
 			s.cancel()
 		}
@@ -364,16 +376,19 @@ func c06NT(c c06Case) (bool, []string) {
 	if c.SlowNotify {
 		cl = append(cl, "behind_slow_notification")
 	}
+	if c.SharedCtx {
+		cl = append(cl, "subscriptions_share_a_context")
+	}
 	return len(c.Calls) >= 2 && nCancel > 0 && nKeep > 0, cl
 }
 
-const c06Rule = "1-6 gated unary calls and 0-3 paced subscriptions on one client (ws; 1/5 of cases http with unary calls only) plus one call and one subscription on a second client that is never touched; every call is assigned none | cancelled-before-issue | cancelled-while-running | cancel-racing-release | cancelled-after-subscription-established; delays at cancel.send / call.dispatch / write.locked; a raw WebSocket peer cancelling one of two calls with xrpc.cancel frames that carry no id, a numeric, string or fractional id of their own, and the target id written as integer, float or string; optionally a notification whose handler keeps running was sent on the same connection before the cancellations. Grid: every strict non-empty subset of 4 calls cancelled, per instant. Non-trivial = >=2 concurrent calls with a strict, non-empty subset cancelled; distinct by descriptor hash"
+const c06Rule = "1-6 gated unary calls and 0-3 paced subscriptions on one client (ws; 1/5 of cases http with unary calls only) plus one call and one subscription on a second client that is never touched; every call is assigned none | cancelled-before-issue | cancelled-while-running | cancel-racing-release | cancelled-after-subscription-established; delays at cancel.send / call.dispatch / write.locked; a raw WebSocket peer cancelling one of two calls with xrpc.cancel frames that carry no id, a numeric, string or fractional id of their own, and the target id written as integer, float or string; optionally the cancelled subscriptions share one context; optionally a notification whose handler keeps running was sent on the same connection before the cancellations. Grid: every strict non-empty subset of 4 calls cancelled, per instant. Non-trivial = >=2 concurrent calls with a strict, non-empty subset cancelled; distinct by descriptor hash"
 
 func TestC06(t *testing.T) {
 	rec := NewRec("C06", c06Rule)
 	defer rec.Finish(t)
 	rec.EnableJournal()
-	rec.RequireClass("cancel_frame_with_id", "behind_slow_notification", "churn", "cancel_pending", "cancel_before", "cancel_running", "cancel_race", "cancel_established", "cancel_none", "tr_http", "tr_ws", "with_delays")
+	rec.RequireClass("subscriptions_share_a_context", "cancel_frame_with_id", "behind_slow_notification", "churn", "cancel_pending", "cancel_before", "cancel_running", "cancel_race", "cancel_established", "cancel_none", "tr_http", "tr_ws", "with_delays")
 	run := func(ft failer, c c06Case) {
 		nt, cl := c06NT(c)
 		rec.Run(ft, c, nt, cl, func() *Violation {
@@ -423,6 +438,9 @@ func TestC06(t *testing.T) {
 				calls = append(calls, cc)
 			}
 			run(t, c06Case{Transport: "ws", Calls: calls, SlowNotify: mask%2 == 1})
+			if mask == 3 || mask == 5 || mask == 6 {
+				run(t, c06Case{Transport: "ws", Calls: calls, SharedCtx: true})
+			}
 		}
 		run(t, c06Case{Transport: "ws", SlowNotify: true, Calls: []c06Call{{Kind: "call", Cancel: "running"}, {Kind: "call", Cancel: "none"}, {Kind: "sub", Cancel: "established"}, {Kind: "call", Cancel: "race"}}})
 		run(t, c06Case{Transport: "ws", Calls: []c06Call{{Kind: "sub", Cancel: "pending"}, {Kind: "sub", Cancel: "none"}, {Kind: "call", Cancel: "none"}, {Kind: "sub", Cancel: "before"}}})
@@ -470,6 +488,7 @@ func TestC06(t *testing.T) {
 			c.Transport = "http"
 		}
 		c.SlowNotify = c.Transport == "ws" && rapid.IntRange(0, 3).Draw(rt, "slownotify") == 0
+		c.SharedCtx = c.Transport == "ws" && rapid.IntRange(0, 2).Draw(rt, "sharedctx") == 0
 		n := rapid.IntRange(1, 6).Draw(rt, "ncalls")
 		for i := 0; i < n; i++ {
 			c.Calls = append(c.Calls, c06Call{Kind: "call", Cancel: rapid.SampledFrom([]string{"none", "none", "before", "running", "running", "race"}).Draw(rt, fmt.Sprintf("cancel%d", i))})
